@@ -114,7 +114,7 @@ def rule_name_pairing(check: Check, repo) -> None:
 
 def run(tier: str) -> Check:
     check = Check("C13", tier, EXPLANATION)
-    check.rules = ["CONTEXT", "FURTHEST", "FAIL", "FAIL-SITE", "FAILLABEL", "FAILPOS", "FRAMES", "NEG", "SUPPRESS", "FAIL-PARITY", "ESCAPE-RENDER", "LINE-OFFSET", "CASE"]
+    check.rules = ["CONTEXT", "RENDER", "FURTHEST", "FAIL", "FAIL-SITE", "FAILLABEL", "FAILPOS", "FRAMES", "NEG", "SUPPRESS", "FAIL-PARITY", "ESCAPE-RENDER", "LINE-OFFSET", "CASE"]
     check.assumptions = [
         "that the line/column/source line shown are those of p: only the partition premise (LINE-OFFSET) of error_context is decided, not its arithmetic",
         "start_pos <= p relies on C16's position-write discipline and on callers passing 0 <= start_pos <= len(text)",
@@ -153,6 +153,19 @@ def run(tier: str) -> Check:
     from ..lineoff import apply as line_offsets
 
     line_offsets(check, repo, "LINE-OFFSET", ["src/pest/exceptions.py"], 1)
+    # "its message and str() render without raising for every input": the whole rendering path on model states
+    from ..rendersem import check_render
+
+    n_r, bad_r = check_render(repo, "C13 RENDER")
+    check.count("render_model_points", n_r)
+    rcon = "src/pest/exceptions.py::PestParsingError"
+    check.oblige("RENDER", rcon, f"a parse failure renders without raising and shows the recorded line:column on all {n_r} model states", True, sample=True)
+    cats_r: dict[str, list[str]] = {}
+    for cat, msg in bad_r:
+        cats_r.setdefault(cat, []).append(msg)
+    for cat, msgs in sorted(cats_r.items()):
+        check.oblige("RENDER", rcon, cat, False, sample=True, finding=Finding("RENDER", rcon, cat, f"PestParsingError: {cat}: e.g. {msgs[0]} ({len(msgs)} of {n_r} model states)", {"witness": msgs[0]}))
+    check.floor("render_model_points", 60)
     # "the line:column and the source line shown are those of p": decided on the order-and-adjacency abstraction (sa/linesem.py)
     from ..linesem import check_error_context
 
